@@ -8,11 +8,13 @@ import (
 	"io"
 	"math/rand"
 	"net/http"
+	"net/http/httptest"
 	"net/url"
 	"os"
 	"path/filepath"
 	"regexp"
 	"strings"
+	"sync"
 	"time"
 
 	"github.com/buchgr/bazel-remote/v2/cache"
@@ -59,6 +61,7 @@ type FmtNameRow struct {
 	File      string `json:"file"`
 	FileOther string `json:"file_other"`
 	Object    string `json:"object"`
+	Azure     string `json:"azure"`
 	HTTP      string `json:"http"`
 	GrpcRead  bk.Req `json:"grpc_read"`
 	GrpcWrite bk.Req `json:"grpc_write"`
@@ -618,14 +621,74 @@ func backendNames(rows []FmtNameRow, backend, mode, prefix string, rng *rand.Ran
 	where := fmt.Sprintf("%s backend, %s mode, prefix %q", backend, mode, prefix)
 
 	if backend == "azblob" {
-		p := azblobproxy.New("acct", "container", prefix, nil, "", false, mode, lg, lg, 0, 0)
+		// the real client, pointed at a local recorder: which blob does it ask for, fetch and write?
+		var mu sync.Mutex
+		var seen []string
+		srv := httptest.NewServer(http.HandlerFunc(func(w http.ResponseWriter, r *http.Request) {
+			_, _ = io.Copy(io.Discard, r.Body)
+			mu.Lock()
+			seen = append(seen, r.Method+" "+r.URL.EscapedPath())
+			mu.Unlock()
+			if r.Method == http.MethodPut {
+				w.WriteHeader(http.StatusCreated)
+				return
+			}
+			w.Header().Set("x-ms-error-code", "BlobNotFound")
+			w.WriteHeader(http.StatusNotFound)
+		}))
+		defer srv.Close()
+		p := azblobproxy.New("acct", "container", prefix, nil, "", false, mode, lg, lg, 1, 10)
+		if err := azblobproxy.VerifRedirect(p, srv.URL); err != nil {
+			return checks, err
+		}
 		for _, ks := range []string{"cas", "ac", "raw"} {
 			kind := map[string]cache.EntryKind{"cas": cache.CAS, "ac": cache.AC, "raw": cache.RAW}[ks]
 			e := mk(kind, ks, 100)
 			got := azblobproxy.VerifObjectKey(p, e.hash, kind)
 			checks++
 			if want := instantiate(e.row.Object, e.hash, 0, ""); got != want {
-				bad("%s: object name of a %s entry is %q, the format says %q", where, ks, got, want)
+				bad("%s: object key of a %s entry is %q, the format says %q", where, ks, got, want)
+			}
+			// the blob name on the wire
+			want := "/container/" + instantiate(e.row.Azure, e.hash, 0, "")
+			for _, op := range []string{"HEAD", "GET", "PUT"} {
+				mu.Lock()
+				seen = nil
+				mu.Unlock()
+				ctx, cancel := context.WithTimeout(context.Background(), 10*time.Second)
+				switch op {
+				case "HEAD":
+					p.Contains(ctx, kind, e.hash, int64(len(e.data)))
+				case "GET":
+					if rc, _, _ := p.Get(ctx, kind, e.hash, int64(len(e.data))); rc != nil {
+						rc.Close()
+					}
+				case "PUT":
+					tf, err := os.CreateTemp("", "vh-az")
+					if err != nil {
+						cancel()
+						return checks, err
+					}
+					_, _ = tf.Write(e.disk)
+					_, _ = tf.Seek(0, 0)
+					p.Put(ctx, kind, e.hash, int64(len(e.data)), int64(len(e.disk)), tf)
+					waitFor(func() bool { mu.Lock(); defer mu.Unlock(); return len(seen) > 0 }, 5*time.Second)
+					os.Remove(tf.Name())
+				}
+				cancel()
+				mu.Lock()
+				reqs := append([]string{}, seen...)
+				mu.Unlock()
+				checks++
+				found := false
+				for _, r := range reqs {
+					if un, err := url.PathUnescape(strings.SplitN(r, " ", 2)[1]); err == nil && strings.HasPrefix(r, op+" ") && un == want {
+						found = true
+					}
+				}
+				if !found {
+					bad("%s: %s of a %s entry goes to %v, the format says the blob is %q", where, op, ks, reqs, want)
+				}
 			}
 		}
 		return checks, nil
